@@ -187,6 +187,13 @@ func (e *Env) evalLazy(x Expr) TVal {
 		for _, v := range n.Vars {
 			bns = append(bns, "q_"+v.Name)
 		}
+		if len(n.Triggers) > 0 {
+			var ts []string
+			for _, t := range n.Triggers {
+				ts = append(ts, ne.eval(t).term)
+			}
+			return TVal{term: "(" + q + " (" + strings.Join(binders, " ") + ") (! " + body + " :pattern (" + strings.Join(ts, " ") + ")))", ty: boolTy()}
+		}
 		return TVal{term: "(" + q + " (" + strings.Join(binders, " ") + ") " + withPatterns(body, bns) + ")", ty: boolTy()}
 	case *ELet:
 		v := e.eval(n.Val)
